@@ -16,3 +16,7 @@ Inductive instr :=
 Inductive sinstr := ICounterInc | IPutResult.
 
 Inductive cinstr := IGuardCleaned | IPutEnd | IPutEndSwallow | ICloseResults | ICloseArgs | ISetCleaned.
+
+(* what `enqueue` of a kind looks at before it accepts an input: a live liveness query (`not self.is_alive()`), the closed flag
+   (`self._closed`), cached knowledge about the child (`self._dead`, `not self._started`: only refreshed by other calls of the parent API) *)
+Record enq_guard := mkGuard { g_asks_alive : bool; g_checks_closed : bool; g_reads_cached_dead : bool }.
